@@ -21,7 +21,9 @@ V31OPT = "CVSS:3.1/AV:P/AC:H/PR:H/UI:R/S:C/C:L/I:N/A:L/E:P/RL:O/CR:H/MAV:N/MS:U"
 V31X = "CVSS:3.1/AV:N/AC:L/PR:N/UI:N/S:U/C:H/I:H/A:H/E:X/MAV:X"  # equal to V31
 V40 = "CVSS:4.0/AV:N/AC:L/AT:N/PR:N/UI:N/VC:H/VI:H/VA:H/SC:N/SI:N/SA:N"
 # every optional metric written out: the longest vectors of their versions (75 and 9+108 characters)
-V2FULL = "AV:N/AC:L/Au:N/C:P/I:P/A:C/E:POC/RL:OF/RC:UC/CDP:LM/TD:H/CR:ND/IR:H/AR:ND"
+V2FULL = "AV:N/AC:L/Au:N/C:P/I:P/A:C/E:POC/RL:OF/RC:UC/CDP:LM/TD:ND/CR:ND/IR:ND/AR:ND"
+V2FULL_B = "AV:N/AC:L/Au:N/C:P/I:P/A:C/E:POC/RL:TF/RC:UR/CR:ND/IR:ND/AR:ND/TD:ND/CDP:MH"   # 75, other last field
+assert len(V2FULL) == 75 and len(V2FULL_B) == 75
 V31FULL = "CVSS:3.1/AV:N/AC:L/PR:N/UI:N/S:U/C:H/I:H/A:H/E:X/RL:O/RC:X/CR:H/IR:X/AR:L/MAV:N/MAC:X/MPR:L/MUI:X/MS:C/MC:X/MI:N/MA:X"
 NEAR = [
     "AV:N/AC:L/Au:N/C:P/I:P",                                # 22 chars, lacks a metric
@@ -40,7 +42,7 @@ V31MOD = V31 + "/MAV:N/MS:U"     # not equal to V31: two Modified metrics are gi
 # other look-alike letters, a lone surrogate (half an emoji, as json.loads yields it), an astral
 # character, NUL
 ODD = ["\u212a", "\u017f", "\u0130", "\u0131", "\uff21", "\u0410", "\ud83d", "\udc80", "\U0001f600", "\0"]
-ALPHABET = [V2MIN, V2OPT, V2PERM, V30, V31, V31OPT, V31X, V40, V2FULL, V31FULL, V31MOD] + NEAR + GLUE + \
+ALPHABET = [V2MIN, V2OPT, V2PERM, V30, V31, V31OPT, V31X, V40, V2FULL, V2FULL_B, V31FULL, V31MOD] + NEAR + GLUE + \
     ["_", "0", "²", "[", "]", "`", "^", "\\", "@", "'"] + ODD
 
 
